@@ -37,6 +37,10 @@ man = {
     "engines": [
         {"name": "lean-sys", "path": "lean/", "serves_properties": [c["property_id"] for c in checks if c["engine"] == "lean-sys"],
          "kind_free_text": "Lean 4 development: L1 models (Iggy/Log, Iggy/Sys), L2 specs, property theorems (Iggy/Props), native judge (Driver/Main.lean) replaying harness traces on model and spec"},
+        {"name": "lean-journal", "path": "lean/Iggy/Journal", "serves_properties": [c["property_id"] for c in checks if c["engine"] == "lean-journal"],
+         "kind_free_text": "Lean 4 model of the state journal (entry layout, loader, apply) + judge journal mode"},
+        {"name": "lean-perm", "path": "lean/Iggy/Perm", "serves_properties": [c["property_id"] for c in checks if c["engine"] == "lean-perm"],
+         "kind_free_text": "permission rules GENERATED from the Rust source on every run (translate/perm_rules.py), hand-written tables/spec, theorems over the generated definitions"},
         {"name": "harness", "path": "harness/", "serves_properties": [c["property_id"] for c in checks],
          "kind_free_text": "Rust correspondence harness linking the real server and sdk crates (feature iggy_verif): node mode = real System + real TCP server + real SDK client, one OS process per server incarnation"},
     ],
